@@ -236,6 +236,22 @@ func propC07(c *Ctx) {
 		a := bs[c.R.Intn(len(bs))]
 		c.Op(fmt.Sprintf("date.add %d %d %d %d %d %d", a[0], a[1], a[2], grid[c.R.Intn(len(grid))], grid[c.R.Intn(len(grid))], grid[c.R.Intn(len(grid))]))
 	}
+	// structured Add: one component at a time from month ends and leap days (AddDate normalisation:
+	// 29 Feb + 1 year = 1 Mar, 31 Jan + 1 month = 2/3 Mar …), against the independent ordinal
+	for _, a := range bs {
+		if a[2] < 28 {
+			continue
+		}
+		for _, dy := range []int{-400, -100, -4, -1, 1, 2, 4, 100, 400} {
+			addOracle(c, a, dy, 0, 0)
+		}
+		for _, dm := range []int{-13, -12, -1, 1, 11, 12, 13, 25} {
+			addOracle(c, a, 0, dm, 0)
+		}
+		for _, dd := range []int{-366, -31, -1, 1, 28, 365, 366} {
+			addOracle(c, a, 0, 0, dd)
+		}
+	}
 	for i := 0; i < 4000; i++ {
 		a := bs[c.R.Intn(len(bs))]
 		days := int64(c.R.Intn(2001) - 1000)
@@ -373,6 +389,36 @@ func propC07(c *Ctx) {
 				}
 			}
 		}
+	}
+}
+
+// addOracle checks one Add call against time.AddDate's documented rule computed independently:
+// normalise (year+dy, month+dm) into a year and a month 1..12, take day 1 of that month, move d-1+dd days.
+func addOracle(c *Ctx, a [3]int, dy, dm, dd int) {
+	line := fmt.Sprintf("date.add %d %d %d %d %d %d", a[0], a[1], a[2], dy, dm, dd)
+	c.Op(line)
+	r := date.New(a[0], time.Month(a[1]), a[2]).Add(dy, dm, dd)
+	ty, tm := a[0]+dy, a[1]+dm
+	for tm > 12 {
+		tm -= 12
+		ty++
+	}
+	for tm < 1 {
+		tm += 12
+		ty--
+	}
+	want := ordinal(ty, tm, 1) + int64(a[2]-1) + int64(dd)
+	ry, rm, rd := r.Date()
+	c.Check(line)
+	if int(rm) < 1 || int(rm) > 12 || rd < 1 || rd > dim(ry, int(rm)) {
+		c.Fail("C07.add.notadate", line, "-> %v is not a calendar date", r)
+		return
+	}
+	if ordinal(ry, int(rm), rd) != want {
+		c.Fail("C07.add.normalise", line, "-> %v", r)
+	}
+	if !date.FromTime(r.Time()).Equal(r) {
+		c.Fail("C07.add.time", line, "-> %v does not survive Time()", r)
 	}
 }
 
